@@ -166,8 +166,13 @@ class ConnectionState:
         response.add_untagged(IdResponse(self.config.id_response))
         return response, None
 
+    def _deselect(self) -> None:
+        selected, self._selected = self._selected, None
+        if selected is not None:
+            selected.deselect()
+
     async def do_select(self, cmd: SelectCommand) -> _CommandRet:
-        self._selected = None
+        self._deselect()
         mailbox, updates = await self.session.select_mailbox(
             cmd.mailbox, cmd.readonly)
         if updates.readonly:
@@ -281,7 +286,7 @@ class ConnectionState:
     async def do_close(self, cmd: CloseCommand) -> _CommandRet:
         if not self.selected.readonly:
             await self.session.expunge_mailbox(self.selected)
-        self._selected = None
+        self._deselect()
         return ResponseOk(cmd.tag, cmd.command + b' completed.'), None
 
     async def do_expunge(self, cmd: ExpungeCommand) -> _CommandRet:
